@@ -327,15 +327,22 @@ class SymStr:
 _FRESH = [0]
 
 
-def encode_fn(fn, S, auth, extra=None, side=None):  # type: ignore[no-untyped-def]
+def encode_fn(fn, S, auth, extra=None, side=None, ambient=False):  # type: ignore[no-untyped-def]
     """String term of ``fn(auth, **extra)``.  ``extra`` maps further parameter names to SymStr / str / None;
-    ``side`` (a list) receives auxiliary constraints (byte decomposition of packed lengths)."""
+    ``side`` (a list) receives auxiliary constraints (byte decomposition of packed lengths).
+    ``ambient=True``: the function takes the request as its first parameter and reads the caller identity
+    with ``auth, _ = _get_auth_and_metadata()`` (the transport contextvar) — that identity is ``auth``."""
     tree = ast.parse(textwrap.dedent(inspect.getsource(fn)))
     fdef = tree.body[0]
     args = [a.arg for a in fdef.args.args]
     if not args:
         raise Unsupported("expected at least one parameter")
-    env = {args[0]: ("auth", auth), "__side__": side if side is not None else []}
+    env = {"__side__": side if side is not None else []}
+    if ambient:
+        env[args[0]] = ("opaque",)
+        env["__ambient__"] = ("auth", auth)
+    else:
+        env[args[0]] = ("auth", auth)
     for name in args[1:]:
         v = (extra or {}).get(name)
         if isinstance(v, SymStr):
@@ -369,6 +376,12 @@ def _block(S, stmts, env):  # type: ignore[no-untyped-def]
             continue
         if isinstance(s, ast.Assign) and len(s.targets) == 1 and isinstance(s.targets[0], ast.Name):
             env[s.targets[0].id] = _val(S, s.value, env)
+            continue
+        if (isinstance(s, ast.Assign) and len(s.targets) == 1 and isinstance(s.targets[0], ast.Tuple) and len(s.targets[0].elts) == 2
+                and all(isinstance(e, ast.Name) for e in s.targets[0].elts) and isinstance(s.value, ast.Call)
+                and isinstance(s.value.func, ast.Name) and s.value.func.id == "_get_auth_and_metadata" and not s.value.args and "__ambient__" in env):
+            env[s.targets[0].elts[0].id] = env["__ambient__"]  # (auth, transport_metadata) of the current request
+            env[s.targets[0].elts[1].id] = ("opaque",)
             continue
         if isinstance(s, ast.Return) and s.value is not None:
             v = _val(S, s.value, env)
